@@ -57,6 +57,10 @@ pub struct E2Scenario {
     pub max_steps: u32,
     /// Allowed steps after the device turned generous (bounded liveness).
     pub generous_bound: u32,
+    /// Allowed entropy requests served from the tail (0 = unlimited): once every response is
+    /// a match, each searcher needs at most one more.
+    #[serde(default)]
+    pub generous_requests: u32,
     /// 0: run the `new` command. n > 0: library scenario, n tasks each calling
     /// `Mnemonic::random(English, lib_len)` `lib_calls` times.
     pub lib_tasks: u32,
